@@ -59,7 +59,7 @@ def needed_requests(s, executed=None):
     """the (text, mode, fields) analyses and the lookups a session's calls ask of the library, in order.  This mirrors only which
     QUESTIONS are asked (a tokenizer's accumulated field set); a question the specification needs and this misses makes TLC reject
     the call, it cannot make a wrong answer acceptable."""
-    tks, reqs = {}, []
+    tks, pts, reqs = {}, {}, []
     for op in (executed if executed is not None else s["ops"]):
         if op["op"] == "create":
             mode = 2 if op["mode"] == -1 else op["mode"]
@@ -72,6 +72,12 @@ def needed_requests(s, executed=None):
             reqs.append({"op": "tok", "text": op["text"], "mode": eff, "fields": sorted(t["fields"])})
         elif op["op"] == "lookup":
             reqs.append({"op": "lookup", "text": op["text"]})
+        elif op["op"] == "pretok_new":
+            mode = 2 if op["mode"] == -1 else op["mode"]
+            f = (set(ALL_FIELDS if op["fields"] == "all" else op["fields"]) if op["handler"] else set()) | set(REQUIRED.get(op["projection"], [])) | set(MODE_FIELD[mode])
+            pts[op["pt"]] = {"mode": mode, "fields": f}
+        elif op["op"] == "pretok_call" and op["pt"] in pts:
+            reqs.append({"op": "tok", "text": op["text"], "mode": pts[op["pt"]]["mode"], "fields": sorted(pts[op["pt"]]["fields"])})
         elif op["op"] in ("matcher", "matcher_fn") and not any(r["op"] == "pos" for r in reqs):
             reqs.append({"op": "pos", "text": []})
     return reqs
@@ -134,10 +140,10 @@ def assemble(sessions, libs, py_events, crashed):
             if e["ev"] != "py":
                 continue
             a = dict(e["args"])
-            if e["op"] == "create":
+            if e["op"] in ("create", "pretok_new"):
                 a["all_fields"] = a["fields"] == "all"
                 a["fields"] = [] if a["all_fields"] else a["fields"]
-            out.append({"ev": "call", "sess": e["sess"], "k": e["k"], "op": e["op"], "args": a, "res": e["res"], "same_object": e.get("same_object", False), "msg": e["msg"]})
+            out.append({"ev": "call", "sess": e["sess"], "k": e["k"], "op": e["op"], "args": a, "res": e["res"], "same_object": e.get("same_object", False), "msg": e["msg"], "val": e.get("val", [])})
             out.append({"ev": "obs", "sess": e["sess"], "k": e["k"], "modes": e["modes"], "lists": e["lists"], "handles": e["handles"], "matchers": e.get("matchers", [])})
         if not any(e["ev"] == "sess_end" for e in evs):
             out.append({"ev": "crash", "sess": s["sess"], "msg": crashed})       # no action of the specification matches an interpreter crash
@@ -346,7 +352,7 @@ def replay_case(path, world, cli):
         ops = []
         for e in calls:
             a = dict(e["args"])
-            if e["op"] == "create":
+            if e["op"] in ("create", "pretok_new"):
                 a["fields"] = "all" if a.pop("all_fields", False) else a["fields"]
             if a.get("text", [])[:1] == [1114112]:
                 a["text"] = [a["text"][2]] * a["text"][1]
@@ -390,6 +396,7 @@ def run(tier, replay=None):
         "a POS matcher applied to morphemes": any(any(h[1] for h in m[1]["hits"]) for e in events if e["ev"] == "obs" for m in e.get("matchers", [])),
         "a POS matcher built by | & - ~": any(e["op"] == "mop" and e["res"] == "ok" for e in calls),
         "a POS pattern that matches nothing": any(e["op"] == "matcher" and e["res"] == "err" for e in calls),
+        "a pre-tokenizer call with a projection": any(e["op"] == "pretok_call" and e["res"] == "ok" and e["val"] for e in calls),
     }
     clis = [e for e in cevents if e["ev"] == "cli"]
     txt = lambda e: "".join(map(chr, e["input"]))
